@@ -1,10 +1,16 @@
 package c16
 
-// driverSrc is the main package of the scratch module. It renders every
-// registered component with every argument vector each time a line arrives on
-// stdin (so one long-lived process can be asked again after its text files
-// were updated, like a program running under `templ generate --watch`), and
-// only reports bytes: all verdicts are computed in the harness.
+// driverSrc is the main package of the scratch module. Commands on stdin:
+//
+//	R            render every registered component with every argument vector, report, END
+//	L n1 n2 ...  start rendering the named components back-to-back in a background loop
+//	             (a program that serves requests continuously while its text files change)
+//	V            let the loop finish its current pass, render the named components 5 more
+//	             passes without any pause, report the LAST pass (+ loop statistics), END
+//
+// One long-lived process can be asked again after its text files were updated,
+// like a program running under `templ generate --watch`. It only reports
+// bytes: all verdicts are computed in the harness.
 const driverSrc = `package main
 
 import (
@@ -17,6 +23,7 @@ import (
 	"sort"
 	"strconv"
 	"strings"
+	"time"
 
 	"github.com/a-h/templ"
 )
@@ -79,14 +86,74 @@ func main() {
 	in := bufio.NewScanner(os.Stdin)
 	out := bufio.NewWriterSize(os.Stdout, 1<<20)
 	enc := json.NewEncoder(out)
+	var stop chan struct{}
+	var done chan []res
 	for in.Scan() {
-		for _, n := range names {
-			for i := range args {
-				_ = enc.Encode(render(n, i))
+		f := strings.Fields(in.Text())
+		if len(f) == 0 {
+			continue
+		}
+		switch f[0] {
+		case "R":
+			for _, n := range names {
+				for i := range args {
+					_ = enc.Encode(render(n, i))
+				}
+			}
+		case "L":
+			stop, done = make(chan struct{}), make(chan []res, 1)
+			go burst(f[1:], stop, done)
+			continue
+		case "V":
+			if stop != nil {
+				close(stop)
+				for _, r := range <-done {
+					_ = enc.Encode(r)
+				}
+				stop = nil
 			}
 		}
 		fmt.Fprintln(out, "END")
 		out.Flush()
 	}
+}
+
+// burst renders the named components without pause until stop is closed, then
+// 5 more passes; the last pass is what gets reported.
+func burst(names []string, stop chan struct{}, done chan []res) {
+	passes, maxPass := 0, time.Duration(0)
+	pass := func(keep bool) (out []res) {
+		t0 := time.Now()
+		for _, n := range names {
+			if reg[n] == nil {
+				continue
+			}
+			for i := range args {
+				r := render(n, i)
+				if keep {
+					out = append(out, r)
+				}
+			}
+		}
+		passes++
+		if d := time.Since(t0); d > maxPass {
+			maxPass = d
+		}
+		return out
+	}
+loop:
+	for {
+		select {
+		case <-stop:
+			break loop
+		default:
+			pass(false)
+		}
+	}
+	var last []res
+	for i := 0; i < 5; i++ {
+		last = pass(i == 4)
+	}
+	done <- append(last, res{N: "#passes", A: passes}, res{N: "#max_pass_us", A: int(maxPass / time.Microsecond)})
 }
 `
